@@ -30,13 +30,14 @@ const (
 	WPARFile
 	WPARStdout
 	WPARStderr
-	WPFetch     // Remote Asset, origin announces Content-Length
-	WPFetchNoCL // origin without Content-Length
+	WPFetch      // Remote Asset, origin announces Content-Length
+	WPFetchNoCL  // origin without Content-Length
+	WPFetchNoSRI // no checksum.sri: the server computes the digest of what it fetched
 	wpCount
 )
 
 var wpNames = []string{"disk.Put", "http.PUT", "http.PUT+sizehdr", "http.PUT+zstd", "BatchUpdateBlobs", "BatchUpdateBlobs+zstd",
-	"ByteStream.Write", "ByteStream.Write+zstd", "SpliceBlob", "SpliceBlob-nodigest", "AR.output_file", "AR.stdout_raw", "AR.stderr_raw", "FetchBlob", "FetchBlob-nocl"}
+	"ByteStream.Write", "ByteStream.Write+zstd", "SpliceBlob", "SpliceBlob-nodigest", "AR.output_file", "AR.stdout_raw", "AR.stderr_raw", "FetchBlob", "FetchBlob-nocl", "FetchBlob-nosri"}
 
 func wpIsZstd(p int) bool { return p == WPHTTPZ || p == WPBatchZ || p == WPBSZ }
 
@@ -80,6 +81,9 @@ func (u *Up) String() string {
 
 // applicable says whether a fault can be expressed on a path at all.
 func faultApplies(path, fault int, size int64) bool {
+	if path == WPFetchNoSRI {
+		return fault == UFNone || fault == UFAbort
+	}
 	switch fault {
 	case UFNone:
 		return true
@@ -88,7 +92,7 @@ func faultApplies(path, fault int, size int64) bool {
 	case UFEncoding:
 		return path == WPHTTP || path == WPBatch
 	case UFAbort:
-		return path == WPDisk || path == WPHTTP || path == WPHTTPZ || path == WPBS || path == WPBSZ || path == WPFetch || path == WPFetchNoCL
+		return path == WPDisk || path == WPHTTP || path == WPHTTPZ || path == WPBS || path == WPBSZ || path == WPFetch || path == WPFetchNoCL || path == WPFetchNoSRI
 	case UFExtend:
 		// with a Content-Length the transport never delivers the surplus
 		return path != WPHTTP && path != WPFetch && path != WPSplice && path != WPSpliceNoDigest
@@ -246,6 +250,21 @@ func send(c *Ctx, cl *world.Client, u *Up) world.Res {
 		}
 		key := world.HashOf([]byte(fmt.Sprintf("action-%d", u.seq)))
 		r, _ := cl.UpdateAR("", key, ar)
+		return r
+	case WPFetchNoSRI:
+		name := fmt.Sprintf("obj%d", u.seq)
+		o := &world.OriginObj{Body: u.Payload, CLen: int64(len(u.Payload)), BreakAt: -1}
+		if u.seq%2 == 0 {
+			o.CLen = -1
+		}
+		if u.Fault == UFAbort {
+			o.BreakAt = u.AbortAt
+		}
+		world.SetOrigin(name, o)
+		r, d := cl.FetchBlob([]string{"http://origin/" + name}, "")
+		if r.OK && (d == nil || d.Hash != u.B.Hash || d.SizeBytes != u.B.Size()) {
+			s.Violate("C01.ack-match", wpNames[u.Path], "FetchBlob without checksum answered digest %v for fetched content %s/%d", d, short(u.B.Hash), u.B.Size())
+		}
 		return r
 	case WPFetch, WPFetchNoCL:
 		name := fmt.Sprintf("obj%d", u.seq)
